@@ -68,14 +68,36 @@ def check(repo: Repo, R) -> None:
                     if d.startswith(arg + "."):
                         evicted.add(d.split(".", 1)[1])
                 ev_line = lp.lineno
-        for c, b in pat.find(f"{arg}.$_", fa.node):
-            pass
+        # the eviction must run whenever the name is held by a *different* object: no further condition
+        guard_ok = True
+        guard_txt = "unconditional"
+        ev_loops = [lp for lp in au.walk_no_nested(fa.node) if isinstance(lp, ast.For) and isinstance(lp.iter, (ast.Tuple, ast.List)) and pat.find(f"$C.pop({val}.name)", lp) + pat.find(f"$C.pop({val}.name, None)", lp)]
+        if ev_loops:
+            from .shared import path_conditions
+            defs = au.local_defs(fa.node)
+            conj = []
+            for t, pol in path_conditions(fa.node, ev_loops[0]):
+                parts = t.values if isinstance(t, ast.BoolOp) and isinstance(t.op, ast.And) and pol else [t]
+                for x in parts:
+                    conj.append(("" if pol else "not ") + ast.unparse(x))
+            oldn = [k for k, v in defs.items() if ast.unparse(v) in (f"{arg}.namespace.get({val}.name, None)", f"{arg}.namespace.get({val}.name)")]
+            o = oldn[0] if oldn else "old"
+            allowed = {f"{o} is not None", f"{o} is not {val}", f"{o}"}
+            extra = [c for c in conj if c not in allowed]
+            guard_ok = not extra and bool(oldn)
+            guard_txt = " and ".join(conj) or "unconditional"
+            # and the test inside the loop removes exactly the old holder
+            inner = [n for n in ast.walk(ev_loops[0]) if isinstance(n, ast.If)]
+            if inner:
+                it = ast.unparse(inner[0].test)
+                guard_ok = guard_ok and it in (f"ctr.get({val}.name, None) is {o}", f"ctr.get({val}.name) is {o}", f"{val}.name in ctr")
+                guard_txt += f"; per container: {it}"
         # alternative: reject re-use outright
         rejects = any(isinstance(n, ast.If) and ast.unparse(n.test) in (f"{val}.name in {arg}.namespace",) and au.raises(n.body, noret) for n in au.walk_no_nested(fa.node))
-        ok = rejects or (set(kinds) <= evicted and ev_line is not None and ev_line < first_store)
+        ok = rejects or (set(kinds) <= evicted and ev_line is not None and ev_line < first_store and guard_ok)
         R.check(ok, rule, key_of(fa, cls), fa.site,
                 f"{cls}._add: per-kind containers {kinds}; before inserting, a re-used name is removed from {sorted(evicted) or 'none of them'}"
-                + (" (or re-use is rejected)" if rejects else "") + ("" if ok else f" — MISSING {sorted(set(kinds) - evicted)}"),
+                + (" (or re-use is rejected)" if rejects else "") + f"; eviction runs under: {guard_txt}" + ("" if ok else f" — MISSING containers {sorted(set(kinds) - evicted)}" if set(kinds) - evicted else " — the eviction is skipped in some case where another object holds the name"),
                 why="assigning an instance to a name that held a signal leaves the signal in the signals view: get(name) and the views disagree, and both objects are exported")
 
         # ---- 2 reserved names complete
